@@ -89,8 +89,10 @@ class SimpleSystem:
             oc = type(exc).__name__ if exc is not None else "ok"
             stats["outcomes"][oc] = stats["outcomes"].get(oc, 0) + 1
             try:
-                found = list(self.transition(live, op, obs, exc, hist, lambda: self.replay(hist)))
+                # the digest is taken BEFORE any oracle looks at the object: a query made by an oracle may itself leave state
+                # behind (fill a cache), which must not leak into the identity of the explored state
                 dg = self.canon(live)
+                found = list(self.transition(live, op, obs, exc, hist, lambda: self.replay(hist)))
                 if not found and dg not in self._checked:
                     if len(self._checked) > 1000000:
                         self._checked.clear()
